@@ -86,6 +86,26 @@ theorem batch_files_of (c : Compiler)
     analyze_render_of c _ h2 (hfr _ h2)]
   simp only [keys_groupByFile, mem_firstOccs, expected_files_append, List.mem_append]
 
+/-- the files of `expected` are exactly the files of the error items -/
+theorem mem_expected_files (c : Compiler) (is : List Item) (f : List Char) :
+    f ∈ (expected c is).map (·.1) ↔ ∃ l col msg pad det, Item.error f l col msg pad det ∈ is := by
+  induction is with
+  | nil => simp [expected]
+  | cons i is ih =>
+    cases i with
+    | error g l col msg pad det =>
+      simp only [expected, List.map_cons, List.mem_cons, ih]
+      constructor
+      · rintro (h | ⟨l', col', msg', pad', det', h⟩)
+        · exact ⟨l, col, msg, pad, det, Or.inl (by rw [h])⟩
+        · exact ⟨l', col', msg', pad', det', Or.inr h⟩
+      · rintro ⟨l', col', msg', pad', det', h | h⟩
+        · left; injection h
+        · exact Or.inr ⟨l', col', msg', pad', det', h⟩
+    | warning g l col msg pad det => simp [expected, ih]
+    | note t => simp [expected, ih]
+    | summary n => simp [expected, ih]
+
 /-! ## the file names the tool produces are well-formed -/
 
 theorem fileOK_of_stem (c : Compiler) (S : List Char) (hne : S ≠ [])
